@@ -45,8 +45,19 @@ func (c04) Gen(seed uint64, run int, tier string) *Plan {
 	n := 6 + r.Intn(20)
 	if big {
 		// sequences whose bodies sum to just below / at / above the limit, and oversize singles
-		shape := r.Intn(5)
+		shape := r.Intn(6)
 		switch shape {
+		case 5:
+			// the same limit holds for what travels in the first agent's queue for the agents behind
+			// it: three tasks of about 12 MiB each for a pivot agent
+			p.Knobs["pivot"] = 1
+			for i := 0; i < 3; i++ {
+				p.Actions = append(p.Actions, Action{Kind: "pbig", D: 6*1024*1024 - 64 + r.Intn(128)})
+			}
+			for i := 0; i < 3; i++ {
+				p.Actions = append(p.Actions, Action{Kind: "checkin", B: 0})
+			}
+			return p
 		case 4:
 			// two check-ins of one agent overlap while small tasks sit in front of many large ones:
 			// the handler of the first one gets no CPU for a while at some point (fault: stalled
@@ -314,6 +325,19 @@ func (c04) Exec(p *Plan, dir string) *Result {
 			w.Sim.Settle()
 			st.pfifo[ch] = append(st.pfifo[ch], rid)
 			res.Probe("tasks-for-pivot-agents")
+		case "pbig":
+			if len(st.piv) == 0 {
+				continue
+			}
+			ch := st.piv[0]
+			tid := st.taskID()
+			var rid uint32
+			fmt.Sscanf(tid, "%x", &rid)
+			// (the path goes out as UTF-16: two bytes per character)
+			w.Operators[0].Task(ch.NameID(), tid, world.CmdFS, "cd", map[string]any{"SubCommand": "cd", "Arguments": "C:\\" + strings.Repeat("p", a.D)})
+			w.Sim.Settle()
+			st.pfifo[ch] = append(st.pfifo[ch], rid)
+			res.Probe("large-tasks-for-pivot-agents")
 		case "prelink":
 			if len(st.piv) == 0 {
 				continue
@@ -492,6 +516,18 @@ func (st *c04State) checkBatch(di int, c *simrt.HTTPCall, ts []world.Task, seque
 		return
 	}
 	if len(st.piv) > 0 && di == 0 {
+		// the size rule covers the frames for the agents behind this one as well
+		all := 0
+		for _, t := range ts {
+			all += len(t.Raw)
+		}
+		if len(ts) > 1 && all >= pipeLimit {
+			res.Violate("C04", "batch-too-large", "limit-exceeded:with-frames-for-pivot-agents", fmt.Sprintf("agent %s: %d tasks with %d body bytes in one reply (limit %d)", d.NameID(), len(ts), all, pipeLimit), w.Sim)
+			return
+		}
+		if all > 20*1024*1024 {
+			res.Probe("reply-above-20MiB-with-frames-for-pivot-agents")
+		}
 		if ts = st.routePivots(ts, sequential); len(res.Violations) > 0 {
 			return
 		}
